@@ -35,6 +35,9 @@ type DialScenario struct {
 	Dials    int      `json:"dials"`
 	Fresh    bool     `json:"fresh_transport,omitempty"` // a fresh UTransport per dial sharing the same *QUICSpec
 	EchoSize int      `json:"echo_size"`
+	// the next dial on the same transport follows the previous connection's close at once (its closing period is still
+	// running), and every connection is used once more after the closing period of its predecessor has ended
+	Quick bool `json:"quick_redial,omitempty"`
 }
 
 func (s *DialScenario) KSeed() uint64 { return s.Seed }
@@ -171,6 +174,7 @@ func genDial(seed uint64, tier string) KScenario {
 	sc.Dials = r.Pick(1, 2, 2, 3, 5)
 	sc.Fresh = r.P(0.3)
 	sc.EchoSize = r.Pick(1, 1000, 20000, 100000)
+	sc.Quick = sc.Dials > 1 && !sc.Fresh && r.P(0.4)
 	return sc
 }
 
@@ -251,8 +255,12 @@ func runDial(t *testing.T, ksc KScenario, res *KResult) {
 				nodes.UTr = &quic.UTransport{Transport: tr, QUICSpec: spec}
 			} else {
 				// same transport: with zero-length source connection IDs the socket can only carry one
-				// connection at a time, so let the previous one leave its closing period first
-				time.Sleep(3 * time.Second)
+				// connection at a time, so let the previous one leave its closing period first - or (Quick) dial at once
+				if sc.Quick {
+					time.Sleep(time.Duration(KMix(sc.Seed, 0x9d1, uint64(di))%30) * time.Millisecond)
+				} else {
+					time.Sleep(3 * time.Second)
+				}
 			}
 		}
 		before := len(w.Tap.Conns)
@@ -268,18 +276,20 @@ func runDial(t *testing.T, ksc KScenario, res *KResult) {
 				return
 			}
 			sconn = c
-			// echo server for one bidirectional stream
+			// echo server for bidirectional streams
 			go func() {
-				s, err := c.AcceptStream(ctx)
-				if err != nil {
-					return
+				for {
+					s, err := c.AcceptStream(ctx)
+					if err != nil {
+						return
+					}
+					b, err := io.ReadAll(s)
+					if err != nil {
+						return
+					}
+					s.Write(b)
+					s.Close()
 				}
-				b, err := io.ReadAll(s)
-				if err != nil {
-					return
-				}
-				s.Write(b)
-				s.Close()
 			}()
 		}()
 		cp := &dialCapture{}
@@ -312,6 +322,25 @@ func runDial(t *testing.T, ksc KScenario, res *KResult) {
 				default:
 					cp.echoOK = true
 				}
+			}
+			if err == nil && cp.echoOK && sc.Quick {
+				// use the connection once more after the closing period of the previous connection (3 PTO) has ended
+				time.Sleep(1500 * time.Millisecond)
+				cp.echoOK = false
+				s2, e2 := conn.OpenStreamSync(ctx)
+				if e2 == nil {
+					go func() { s2.Write(payload[:min(len(payload), 1000)]); s2.Close() }()
+					var got []byte
+					if got, e2 = io.ReadAll(s2); e2 == nil {
+						if !bytes.Equal(got, payload[:min(len(payload), 1000)]) {
+							res.Fail("echoed stream data differs from what was sent", "dial #%d, second use: got %d bytes", di, len(got))
+						} else {
+							cp.echoOK = true
+							res.Probe("quick-redial-second-use-ok")
+						}
+					}
+				}
+				err = e2
 			}
 			if err != nil {
 				cp.err = err
